@@ -54,7 +54,21 @@ def _helper_kind(P, g):
 def family(F, expr):
     """'tmp' if the expression is an instance of tempdir_format.format(...), 'out' if join(path, 'part.<k>.parquet')."""
     t = astq.template(F, expr)
-    return _family_of_template(t)
+    fam = _family_of_template(t)
+    if fam is not None:
+        return fam
+    # by provenance: anything formatted out of `tempdir_format` is the temp family; a join under the dataset `path` that is not, is the output family
+    e = astq.expand(F, expr) if isinstance(expr, ast.AST) else None
+    if e is None:
+        return None
+    names = astq.names_in(e)
+    if 'tempdir_format' in names:
+        return 'tmp'
+    pathp = F.params[1] if len(F.params) > 1 else 'path'
+    for c in ast.walk(e):
+        if isinstance(c, ast.Call) and norm(c.func).endswith('path.join') and c.args and isinstance(c.args[0], ast.Name) and c.args[0].id == pathp and 'parquet' in norm(e):
+            return 'out'
+    return None
 
 
 def _family_of_template(t):
@@ -78,7 +92,7 @@ def run(P, R, tier):
     F = P.func(MOD, ROOT)
     from rules import common as _common
     _common.forward(P, R, 'C12', ['C12.c'], 'C10.e', 'the returned frame (and any re-read) loads the parts in numeric order: part.10 after part.2', floor=1)
-    _common.forward(P, R, 'C11', ['C11.d'], 'C10.e', 'the returned frame is read back through read_parquet_dask', floor=1)
+    _common.forward(P, R, 'C11', ['C11.d', 'C11.e'], 'C10.e', 'the returned frame is read back through read_parquet_dask', floor=1)
     helpers = {name: (g, _helper_kind(P, g)) for name, g in F.nested.items()}
     rm_helpers = [g for g, k in helpers.values() if 'rm' in k]
     mk_helpers = [g for g, k in helpers.values() if 'mkdir' in k]
@@ -302,7 +316,35 @@ def run(P, R, tier):
         R.floor('C10.c', 'sub-part write sites', found, 1)
     # compaction: i-th non-empty part moves to i-th name
     mv = calls_to(F, mv_helpers)
-    R.floor('C10.c', 'compaction move sites', len(mv), 1)
+    if not mv:
+        # renumbering without per-file moves: copies followed by removals.  Sources and targets overlap (the i-th non-empty part moves to name i, which
+        # can be the old name of another non-empty part), so removing "the sources" wholesale deletes files that were just written as targets.
+        srcs = set()
+        for s_ in walk_own(F.node):
+            if isinstance(s_, ast.Assign) and isinstance(s_.targets[0], ast.Tuple) and isinstance(s_.value, ast.Call) and norm(s_.value.func) == 'zip' \
+                    and any(isinstance(a_, ast.Starred) for a_ in s_.value.args) and 'is not None' in norm(s_.value):
+                srcs |= {e_.id for e_ in s_.targets[0].elts if isinstance(e_, ast.Name)}
+        tainted = set(srcs)
+        changed = bool(tainted)
+        while changed:
+            changed = False
+            for s_ in walk_own(F.node):
+                if isinstance(s_, ast.Assign) and astq.names_in(s_.value) & tainted:
+                    for t_ in s_.targets:
+                        for nm_ in ast.walk(t_):
+                            if isinstance(nm_, ast.Name) and nm_.id not in tainted:
+                                tainted.add(nm_.id)
+                                changed = True
+        bulk = [c_ for c_ in calls_to(F, rm_helpers) if any(astq.names_in(a_) & tainted for a_ in c_.args)]
+        for c_ in bulk:
+            e_ = astq.expand(F, c_.args[0])
+            excl = any(isinstance(x, ast.Compare) and isinstance(x.ops[0], ast.NotIn) for x in ast.walk(e_)) or any(isinstance(x, ast.BinOp) and isinstance(x.op, ast.Sub) for x in ast.walk(e_)) \
+                or 'difference' in norm(e_)
+            R.check(excl, 'C10.c', F, c_, 'the renumbering removes only old names that are not new names',
+                    f'`{norm(c_)}` removes the old names of the renumbered parts wholesale: an old name can be the new name of another part (parts 0, 2, 3 -> 0, 1, 2: name 2 is both), '
+                    'so a file just written as a target is deleted and its rows are lost', construct='bulk renumbering removes targets')
+        if not bulk:
+            R.floor('C10.c', 'compaction move sites', len(mv), 1)
     for c in mv:
         loop = _enclosing(c, ast.For)
         ok = False
